@@ -1,7 +1,12 @@
-// Kani harnesses for C10 on ide::line_index::LineIndex (child module: private fields).
-//  A: LineIndex::new(text) establishes Inv(text): line_starts == reference line starts
-//  B: from an arbitrary state satisfying Inv (built directly, exact capacity):
-//     pos_to_line_col / line_col_to_pos / pos_to_line / line_to_pos equal the reference
+// Kani harnesses for C10 on ide::line_index (child module: private items).
+// LineIndex's methods are one-line wrappers around free functions over (&str, &[TextSize]);
+// heap-backed String/Vec with symbolic contents explode under CBMC (measured: 52 M SAT
+// variables for a 3-byte text), so the solver decides the free functions on stack data:
+//  A: for_each_line_start(text, sink) yields exactly the reference line starts (= what
+//     LineIndex::new pushes into line_starts)
+//  B: for every (text, line_starts = reference line starts): pos_to_line_col /
+//     line_col_to_pos / pos_to_line / line_to_pos equal the reference
+//  W: the wrappers LineIndex::{new, pos_to_line_col, ...} on a concrete text (glue check)
 // The lsp-level pass-through (to_proto/from_proto) is harness C in harness/lsp/position_h.rs.
 #![allow(dead_code, unused_imports)]
 
@@ -36,12 +41,12 @@ struct Text<const N: usize, const B: usize> {
     syms: [u8; N],
     n: usize,
     buf: [u8; B],
+    len: usize,
     /// byte offset of symbol index k (k = 0..=n)
     off: [usize; MAXN + 1],
 }
 
-/// every text of EXACTLY B bytes (B concrete: heap allocations of symbolic size explode
-/// under CBMC) made of at most N alphabet symbols
+/// every text of at most N alphabet symbols (B = 4 N bytes of buffer)
 fn any_text<const N: usize, const B: usize>() -> Text<N, B> {
     let syms: [u8; N] = kani::any();
     let n: usize = kani::any();
@@ -66,8 +71,7 @@ fn any_text<const N: usize, const B: usize>() -> Text<N, B> {
         off[i + 1] = len;
         i += 1;
     }
-    kani::assume(len == B);
-    Text { syms, n, buf, off }
+    Text { syms, n, buf, len, off }
 }
 
 /// reference line starts as symbol indices: after LF, after lone CR, after CR LF
@@ -159,94 +163,112 @@ fn ref_offset<const N: usize, const B: usize>(t: &Text<N, B>, line: usize, col: 
 }
 
 // ---------------------------------------------------------------------------
-// A: new() establishes the invariant
+// A: the line-start scan used by LineIndex::new
 
 fn new_step<const N: usize, const B: usize>() {
     let t: Text<N, B> = any_text();
-    let text = unsafe { std::str::from_utf8_unchecked(&t.buf[..]) };
-    let li = LineIndex::new(text);
+    let text = unsafe { std::str::from_utf8_unchecked(&t.buf[..t.len]) };
+    let mut got = [0usize; MAXN + 2];
+    let mut cnt_got = 0usize;
+    for_each_line_start(text, |s| {
+        if cnt_got < MAXN + 2 {
+            got[cnt_got] = usize::from(s);
+        }
+        cnt_got += 1;
+    });
     let (starts, cnt) = ref_line_starts(&t);
-    assert!(li.line_starts.len() == cnt, "C10/Inv: one entry per line (LF, CR, CRLF terminate a line; FF, U+2028 do not)");
+    assert!(cnt_got == cnt, "C10: one line start per line (LF, CR, CRLF terminate a line; FF, U+2028 do not)");
     let mut i = 0;
     while i < MAXN + 1 {
         if i < cnt {
-            assert!(usize::from(li.line_starts[i]) == t.off[starts[i]], "C10/Inv: line start offsets");
+            assert!(got[i] == t.off[starts[i]], "C10: line start offsets");
         }
         i += 1;
     }
-    assert!(li.text.as_bytes() == &t.buf[..], "C10/Inv: text kept");
     kani::cover!(cnt >= 3, "W: three lines");
-    kani::cover!(cnt == 1 && B >= 1, "W: a text without terminator");
-    std::mem::forget(li);
+    kani::cover!(cnt == 1 && t.n == N, "W: a full-length text without terminator");
 }
 
 // ---------------------------------------------------------------------------
-// B: methods from an arbitrary state satisfying the invariant
+// B: the conversions, for every text with its reference line starts
 
-fn state_of<const N: usize, const B: usize>(t: &Text<N, B>) -> LineIndex {
+fn starts_of<const N: usize, const B: usize>(t: &Text<N, B>) -> ([TextSize; MAXN + 1], usize) {
     let (starts, cnt) = ref_line_starts(t);
-    let mut v: Vec<TextSize> = Vec::with_capacity(MAXN + 1);
+    let mut v = [TextSize::from(0); MAXN + 1];
     let mut i = 0;
     while i < MAXN + 1 {
         if i < cnt {
-            v.push(TextSize::try_from(t.off[starts[i]]).unwrap());
+            v[i] = TextSize::try_from(t.off[starts[i]]).unwrap();
         }
         i += 1;
     }
-    let text = unsafe { std::str::from_utf8_unchecked(&t.buf[..]) };
-    LineIndex { text: String::from(text), line_starts: v }
+    (v, cnt)
 }
 
 fn to_step<const N: usize, const B: usize>() {
     let t: Text<N, B> = any_text();
-    let li = state_of(&t);
+    let text = unsafe { std::str::from_utf8_unchecked(&t.buf[..t.len]) };
+    let (v, cnt) = starts_of(&t);
+    let ls = &v[..cnt];
     let k: usize = kani::any();
     kani::assume(k <= t.n);
     let off = t.off[k];
-    let (line, col) = li.pos_to_line_col(TextSize::try_from(off).unwrap());
-    let l2 = li.pos_to_line(TextSize::try_from(off).unwrap());
+    let (line, col) = pos_to_line_col(text, ls, TextSize::try_from(off).unwrap());
+    let l2 = pos_to_line(ls, TextSize::try_from(off).unwrap());
     assert!(l2 == line, "pos_to_line agrees with pos_to_line_col");
     if let Some((rl, rc)) = ref_position(&t, k) {
         assert!(line == rl, "C10: offset maps to the zero-based line containing it");
         assert!(col == rc, "C10: column is the UTF-16 column within the line");
-        let back = li.line_col_to_pos(line, col);
+        let back = line_col_to_pos(text, ls, line, col);
         assert!(usize::from(back) == off, "C10: converting back returns the same offset");
-        if B >= 4 {
+        if N >= 4 {
             kani::cover!(rl == 2, "W: third line reached");
-        }
-        if B >= 5 {
             kani::cover!(rc >= 3 && t.syms[k - 1] == 6, "W: astral char before the offset");
         }
     }
-    kani::cover!(k == t.n, "W: end offset");
-    std::mem::forget(li);
+    kani::cover!(k == t.n && t.n == N, "W: end offset of a full-length text");
 }
 
 fn from_step<const N: usize, const B: usize>() {
     let t: Text<N, B> = any_text();
-    let li = state_of(&t);
+    let text = unsafe { std::str::from_utf8_unchecked(&t.buf[..t.len]) };
+    let (v, cnt) = starts_of(&t);
+    let ls = &v[..cnt];
     let line: usize = kani::any();
     let col: u32 = kani::any();
-    kani::assume(line <= B + 1);
-    kani::assume(col <= 2 * B as u32 + 1);
-    let got = usize::from(li.line_col_to_pos(line, col));
-    assert!(got <= B, "C10: result stays inside the text");
-    let text = unsafe { std::str::from_utf8_unchecked(&t.buf[..]) };
+    kani::assume(line <= N + 1);
+    kani::assume(col <= 2 * N as u32 + 1);
+    let got = usize::from(line_col_to_pos(text, ls, line, col));
+    assert!(got <= t.len, "C10: result stays inside the text");
     assert!(text.is_char_boundary(got), "C10: result on a char boundary");
     if let Some(k) = ref_offset(&t, line, col) {
         assert!(got == t.off[k], "C10: position maps to the reference offset, clamped to the line end");
-        if B >= 3 {
+        if N >= 3 {
             kani::cover!(k < t.n && (t.syms[k] == LF || t.syms[k] == CR) && col > 2, "W: column clamped to the line end");
         }
     }
-    let (_, cnt) = ref_line_starts(&t);
     if line < cnt {
-        let ls = li.line_to_pos(line);
-        assert!(usize::from(ls) == usize::from(li.line_col_to_pos(line, 0)), "line_to_pos is column 0");
+        let lp = line_to_pos(text, ls, line);
+        assert!(usize::from(lp) == usize::from(line_col_to_pos(text, ls, line, 0)), "line_to_pos is column 0");
+    } else {
+        assert!(got == t.len, "a line past the end maps to the end of the text");
     }
-    if B >= 2 {
-        kani::cover!(line == 1 && col == 1, "W: second line, second column");
+    if N >= 2 {
+        kani::cover!(line == 1 && col == 1 && got == 2, "W: second line, second column");
     }
+}
+
+// W: the struct wrappers on a concrete text (new -> line_starts/text; methods delegate)
+#[kani::proof]
+#[kani::unwind(8)]
+fn c10_wrappers_concrete() {
+    let li = LineIndex::new("a\r\nb");
+    assert!(li.line_starts.len() == 2);
+    assert!(li.pos_to_line(TextSize::from(3)) == 1);
+    assert!(li.pos_to_line_col(TextSize::from(4)) == (1, 1));
+    assert!(li.line_col_to_pos(1, 1) == TextSize::from(4));
+    assert!(li.line_to_pos(1) == TextSize::from(3));
+    assert!(li.line_to_pos(9) == TextSize::from(4));
     std::mem::forget(li);
 }
 
@@ -260,30 +282,12 @@ macro_rules! li_harness {
     };
 }
 
-li_harness!(c10_new_b0, new_step, 1, 0, 12);
-li_harness!(c10_new_b1, new_step, 1, 1, 12);
-li_harness!(c10_new_b2, new_step, 2, 2, 12);
-li_harness!(c10_new_b3, new_step, 3, 3, 12);
-li_harness!(c10_new_b4, new_step, 4, 4, 12);
-li_harness!(c10_new_b5, new_step, 5, 5, 12);
-li_harness!(c10_new_b6, new_step, 6, 6, 12);
-li_harness!(c10_new_b7, new_step, 7, 7, 12);
-li_harness!(c10_new_b8, new_step, 8, 8, 12);
-li_harness!(c10_to_b0, to_step, 1, 0, 12);
-li_harness!(c10_to_b1, to_step, 1, 1, 12);
-li_harness!(c10_to_b2, to_step, 2, 2, 12);
-li_harness!(c10_to_b3, to_step, 3, 3, 12);
-li_harness!(c10_to_b4, to_step, 4, 4, 12);
-li_harness!(c10_to_b5, to_step, 5, 5, 12);
-li_harness!(c10_to_b6, to_step, 6, 6, 12);
-li_harness!(c10_to_b7, to_step, 7, 7, 12);
-li_harness!(c10_to_b8, to_step, 8, 8, 12);
-li_harness!(c10_from_b0, from_step, 1, 0, 12);
-li_harness!(c10_from_b1, from_step, 1, 1, 12);
-li_harness!(c10_from_b2, from_step, 2, 2, 12);
-li_harness!(c10_from_b3, from_step, 3, 3, 12);
-li_harness!(c10_from_b4, from_step, 4, 4, 12);
-li_harness!(c10_from_b5, from_step, 5, 5, 12);
-li_harness!(c10_from_b6, from_step, 6, 6, 12);
-li_harness!(c10_from_b7, from_step, 7, 7, 12);
-li_harness!(c10_from_b8, from_step, 8, 8, 12);
+li_harness!(c10_new_n4, new_step, 4, 16, 18);
+li_harness!(c10_to_n4, to_step, 4, 16, 18);
+li_harness!(c10_from_n4, from_step, 4, 16, 18);
+li_harness!(c10_new_n6, new_step, 6, 24, 26);
+li_harness!(c10_to_n6, to_step, 6, 24, 26);
+li_harness!(c10_from_n6, from_step, 6, 24, 26);
+li_harness!(c10_new_n3, new_step, 3, 12, 14);
+li_harness!(c10_to_n3, to_step, 3, 12, 14);
+li_harness!(c10_from_n3, from_step, 3, 12, 14);
